@@ -251,10 +251,12 @@ def chain_program(rng, w, n, geometry='plain'):
 def directed_native_case(rng):
     """images + knobs aimed at the cold paths of the native loops. returns (w, case_segs, tags, knobs)"""
     kind = rng.choice(['cache-collision', 'page-straddle', 'window-edge', 'tiny-window-input', 'ring-flat-lane',
-                       'measured-input-edge', 'magic-collision', 'many-pages', 'top-self-mod'])
+                       'measured-input-edge', 'magic-collision', 'many-pages', 'top-self-mod', 'far-sort'])
     knobs = {}
     if kind == 'many-pages':
         return many_pages_case(rng)
+    if kind == 'far-sort':
+        return far_sort_case(rng)
     if kind == 'top-self-mod':
         return top_self_mod_case(rng)
     if kind == 'cache-collision':
@@ -376,6 +378,63 @@ def many_pages_case(rng):
     knobs = rng.choice([{'no_flat': True}, {'flat_max_words': 4}, {'flat_max_words': 1 << 14}, {'no_flat': True, 'last_ops': 3},
                         {'flat_max_words': 2, 'measure': True}, {}])
     return w, segs, ['directed:many-pages'], knobs
+
+
+def far_sort_case(rng):
+    """w=64: a few low segments plus several small segments sharing far 16K-word pages whose start addresses differ from
+    the low ones (and from each other) by amounts whose low 32 bits look negative / zero / wrap - the ordering of the
+    segment list, its binary search and the "second intersection with a page" path of the native engine; the ops (in
+    segment 0 and inside far segments) flip bits of words in every far segment, in particular not the first of its page"""
+    w, ww = 64, 6
+    lo32 = [0x80000000, 0xC0000000, 0xFFFFC000, 0x7FFFC000, 0, 0x40000000, 0xFFFF8000]
+    bases = []
+    for _ in range(rng.choice([1, 2, 3])):
+        hi = 1 << rng.choice([32, 33, 36, 40, 45, 50])
+        bases.append(hi * rng.choice([1, 1, 3]) + rng.choice(lo32))
+    bases = sorted(set(bases))
+    far = []                                 # (start, length)
+    for b in bases:
+        off = 0
+        for _ in range(rng.choice([2, 3, 4])):
+            ln = rng.choice([4, 6, 8])
+            far.append((b + off, ln))
+            off += ln + rng.choice([2, 8, 10, 100])
+    n_ops = rng.randrange(2, 7)
+    n0 = 2 * n_ops + 2
+    low_extra = [(16 + 16 * i, rng.choice([4, 8])) for i in range(rng.choice([0, 2, 3]))]
+    low_extra = [(s0, ln) for s0, ln in low_extra if s0 >= n0 + 2]
+    words0 = []
+    # an op inside a far segment (not the first of its page when possible) that flips and jumps back
+    fs, fl = far[-1] if rng.random() < 0.7 else rng.choice(far)
+    use_far_op = rng.random() < 0.6
+    for k in range(n_ops):
+        ts, tl = rng.choice(far[1:] if len(far) > 1 and rng.random() < 0.8 else far)
+        f = ((ts + rng.randrange(tl)) << ww) + rng.randrange(w)
+        if use_far_op and ts == fs:
+            f = ((ts + 2 + rng.randrange(tl - 2)) << ww) + rng.randrange(w)      # keep the far op's own words
+        last = k == n_ops - 1
+        j = (2 * k) << ww if last else (2 * (k + 1)) << ww                      # the last op loops on itself
+        if use_far_op and k == n_ops // 2 and not last:
+            j = fs << ww
+        words0 += [f, j]
+    words0 += [0, 0]
+    segs = [[0, n0, words0]]
+    for s0, ln in low_extra:
+        segs.append([s0, ln, [rng.randrange(1 << 20) for _ in range(rng.choice([0, 2]))]])
+    for s0, ln in far:
+        data = []
+        if use_far_op and s0 == fs:
+            back = (2 * (n_ops // 2 + 1)) << ww
+            data = [((far[0][0] + 1) << ww) + 5, back]
+        elif rng.random() < 0.5:
+            data = [rng.randrange(1 << 40) for _ in range(2)]
+        segs.append([s0, ln, data])
+    head, rest = segs[:1], segs[1:]
+    rng.shuffle(rest)                        # the order of segments in a file is free (segment 0 stays first)
+    segs = head + rest
+    knobs = rng.choice([{}, {'no_flat': True}, {'flat_max_words': 4}, {'no_flat': True, 'last_ops': 3}, {'last_ops': 4},
+                        {'flat_max_words': 2, 'measure': True}])
+    return w, segs, ['directed:far-sort'], knobs
 
 
 def top_self_mod_case(rng):
